@@ -162,6 +162,14 @@ def gen_edit_doc(rnd):
         if head and rnd.random() < 0.15:
             head.insert(rnd.randint(1, len(head)), "/")
         ps = head + tail
+        first_starred = False
+        if not in_class and rnd.random() < 0.15:
+            # the FIRST parameter is a starred one: the new name goes in front of the star(s)
+            ps = rnd.choice([["**kw"], ["**kwargs: int"], ["*args"], ["*args", "**kw"], ["*", "k1=None"], ["*", "k1", "**kw"], ["*rest: int", "k2=1"]])
+            pos, posd, head = [], [], []
+            star = next((x for x in ps if x.startswith("*") and not x.startswith("**")), None)
+            tail = ps
+            first_starred = True
         ret = rnd.choice(["", "", " -> None", " -> int", " -> dict[str, int]", " -> \"T\""])
         shape = rnd.choice(["one", "one", "one", "multi", "multi_trailing", "space", "comment", "empty_multi"])
         if shape == "one" or (shape in ("multi", "multi_trailing") and not ps):
@@ -181,7 +189,7 @@ def gen_edit_doc(rnd):
         out.append("")
         expect.append((name, fx, shape + ("|ret" if ret else "") + ("|pos" if pos or in_class else "") + ("|posd" if posd else "")
                        + ("|star" if star else "") + ("|dstar" if any(x.startswith("**") for x in tail) else "")
-                       + ("|posonly" if "/" in head else "")))
+                       + ("|posonly" if "/" in head else "") + ("|first-starred" if first_starred else "")))
 
     for _ in range(rnd.randint(2, 4)):
         if rnd.random() < 0.25:
